@@ -36,6 +36,19 @@ PROPS = {
         "shards": {"quick": 4, "thorough": 16},
         "no_panic": ["read "],
     },
+    "C03": {
+        "modules": ["Capnp.Props.C03"],
+        "gen": True,
+        "rule": "value trees (all 8 list kinds, zero-sized structs, caps, nested lists, text/data) laid out by the independent reference "
+                "encoder over 1-4 segments with near/far/double-far chosen per edge and random padding; the complete tree read through the "
+                "public accessors is compared (S) with the tree the Lean spec decoder (Spec.Encoding, written from the encoding document) "
+                "derives from the same bytes, and with the harness's shadow of what was encoded; every third case is mutated so that both "
+                "sides must also agree on rejection. Non-trivial: op line > 60 chars; distinct by hash.",
+        "trusted": COMMON_TRUSTED + ["go2lean translation rules", "Spec.Encoding transcribes capnproto.org/encoding.html"],
+        "assumptions": ["double-far landing pads whose tag word is all zero are read as the spec corner described in DESIGN.md 12"],
+        "shards": {"quick": 4, "thorough": 16},
+        "no_panic": ["read "],
+    },
     "C13": {
         "modules": ["Capnp.Props.C13"],
         "gen": False,
